@@ -223,4 +223,18 @@ def exclLegacyPathServers (k : RouterKind) (d : Doc) (r : Req) : Bool :=
 def exclLegacyKeyCollision (k : RouterKind) (d : Doc) : Bool :=
   k = .legacy && keyCollision (docKeys d)
 
+/-- a server whose URL pattern matches the request only with a variable value that contains a dot -/
+def serverMatchesWithDot (s : Server) (r : Req) : Bool :=
+  let url := dropOneSlash s.url
+  let toks := sparseS url
+  let target := if isRelativeURL url then r.path else fullURL r
+  (smatchP toks target).any (fun br => (br.2 = [] || br.2.head? = some '/') && br.1.any (fun v => v.contains '.'))
+
+/-- both routers: a server variable never takes a value with the character that follows it in the server URL — for a host
+    variable (`https://{tenant}.api.test`) a value with a dot (`a.b.api.test`): mux compiles host variables to `[^.]+`,
+    `Server.MatchRawURL` ends a value at the next pattern character; the specification puts no such restriction on values.
+    Stated coarsely on the request: some declared server matches it with a dotted value. -/
+def exclSrvVarDot (d : Doc) (r : Req) : Bool :=
+  d.servers.any (serverMatchesWithDot · r) || d.paths.any (fun p => p.servers.any (serverMatchesWithDot · r))
+
 end KinModel.Router
